@@ -753,4 +753,4 @@ RULES.append(('17.A', 'enum accessors agree across sibling variants: an accessor
 RULES.append(('17.G', 'guard census: no reviewed call of a workspace function and no reviewed mutation of a stored collection gained a controlling branch condition (an added `&& cond`, early return / continue, more specific match arm in front of an act); counts per call site, name free (rules/guards.py)', lambda F: guards.for_property(F, 'C17', '17.G')))
 RULES.append(('17.I', 'parse-position independence: in every function reading from a reader, no stream read is skipped under a condition computed from local state (self, another argument) while parsing goes on - a skipped incremental update in a rapid-gossip-sync snapshot still consumes its fields (rules/parsepos.py)', lambda F: parsepos.rule(F, '17.I', lambda n, r: re.search(r'lightning-rapid-gossip-sync/|routing/gossip\\.rs$', r['file']) is not None and 'ser_macros' not in r['file'], 1, 30)))
 RULES.append(('17.W', 'field assignments: every reviewed (function, Type.field) direct assignment is still made - state that a path no longer updates, or updates only conditionally (get_or_insert for an overwrite); generalises NN.R (rules/writes.py)', lambda F: writes.for_property(F, 'C17', '17.W')))
-RULES.append(('17.N', 'arithmetic census: per reviewed function the number of operations per (group: add/sub, mul, div, rem, shift, bit, min, max, div_ceil ...; flavour: plain / checked / saturating / wrapping) is unchanged - a dropped or added `+ 1`, a rounding direction, saturating for checked, min for max (rules/arith.py; value arithmetic itself is not decided)', lambda F: arith.for_property(F, 'C17', '17.N')))
+RULES.append(('17.N', 'arithmetic census: per reviewed function the set of operation kinds (group: add/sub, mul, div, rem, shift, bit, min, max, div_ceil ...; flavour: plain / checked / saturating / wrapping) keeps its kinds: no reviewed function lost or gained a kind of arithmetic altogether - a rounding direction (`/` for div_ceil), saturating for checked, min for max (rules/arith.py; counts and value arithmetic itself are not judged)', lambda F: arith.for_property(F, 'C17', '17.N')))
